@@ -206,7 +206,8 @@ namespace nmtools::index
                 auto nb = product(bshape);
                 at(ret,0_ct) = na + nb;
             }
-            else if (ad==bd) {
+            else if ((ad==bd) && (static_cast<nm_index_t>(axis) >= 0) && (static_cast<nm_index_t>(axis) < static_cast<nm_index_t>(ad))) {
+                // (the axis has been normalized above: outside [0,dim) it is invalid)
                 using idx_t = meta::promote_index_t<size_t,axis_t>;
                 auto shape_concatenate_impl = [&](auto i){
                     auto ai = at(ashape,i);
